@@ -214,6 +214,18 @@ where
     S: Strategy<Value = T>,
 {
     let w = ctx.workers.max(1) as u64;
+    // debugging aid: VERIF_ONLY_PART=<name> runs a single part, VERIF_CASES=<n> overrides the count
+    let mut cases = cases;
+    if let Ok(only) = std::env::var("VERIF_ONLY_PART") {
+        if only != part {
+            cases = 0;
+        }
+    }
+    if let Some(n) = std::env::var("VERIF_CASES").ok().and_then(|x| x.parse::<u64>().ok()) {
+        if cases > 0 {
+            cases = n;
+        }
+    }
     let stop = AtomicBool::new(false);
     let results: Mutex<Vec<(Stats, Option<(T, Viol)>, BTreeMap<String, u64>)>> = Mutex::new(vec![]);
     std::thread::scope(|sc| {
